@@ -64,6 +64,7 @@ type Config struct {
 	MaxSteps int64
 	TraceOn  bool
 	Epoch    int64 // virtual epoch, ns since Unix epoch; 0 = chosen from tape
+	Quanta   []int64 // CPU quantum choices (ns per yield); nil = default set
 }
 
 type Sim struct {
@@ -193,7 +194,11 @@ func Run(cfg Config, root func()) *Result {
 	} else {
 		s.epoch = epochs[s.streams[StF].choose(len(epochs))]
 	}
-	s.quantum = []int64{1000, 100, 10000, 20000}[s.streams[StF].choose(4)]
+	quanta := []int64{1000, 100, 10000, 20000}
+	if len(cfg.Quanta) > 0 {
+		quanta = cfg.Quanta
+	}
+	s.quantum = quanta[s.streams[StF].choose(len(quanta))]
 	// scheduling policy from the S stream
 	s.policy = s.streams[StS].choose(NumPolicies)
 	s.switchDen = []int{8, 2, 4, 16, 32, 64}[s.streams[StS].choose(6)]
